@@ -21,7 +21,7 @@ CatMC == [q \in PathsMC |-> IF q \in FlowSet \cup NestedFlows THEN 1 ELSE IF q \
 
 \* old configuration: every flow absent or v1 (at least one flow), gateway config absent or g1, the user's metrics
 \* file absent or m1, the gateway's built-in default metrics file d1 (not part of any payload)
-Disks == {d \in [PathsMC -> {"none", "v1", "g1", "m1", "d1", "p1"}] :
+Disks == {d \in [PathsMC -> {"none", "v1", "g1", "m1", "d1", "p1", "e0"}] :
             /\ \A q \in NestedFlows : d[q] \in {"none", "v1"}
             /\ \A q \in NestedPP : d[q] \in {"none", "p1"}
             /\ \A f \in FlowSet : d[f] \in {"none", "v1"}
